@@ -7,13 +7,21 @@
 use parol::{Cfg, Pr, Symbol, SymbolAttribute, Terminal, augment_grammar};
 use std::collections::BTreeSet;
 
-// S0/S1: names the fresh-name generator would pick next, so that freshness is really exercised
-const NT: [&str; 4] = ["S", "A", "S0", "S1"];
+// two name universes.  U0: S0/S1 are the names the fresh-name generator would pick next, so that freshness is really
+// exercised.  U1: numeric suffixes whose numeric and lexicographic order disagree (S9 < S10 numerically, "S10" < "S9" as
+// strings), so that a generator that walks the (sorted) exclusion set only once is exposed.
+const UNIVERSES: [[&str; 4]; 2] = [["S", "A", "S0", "S1"], ["S9", "A", "S10", "S11"]];
+static UNIVERSE: std::sync::atomic::AtomicUsize = std::sync::atomic::AtomicUsize::new(0);
+struct Nt;
+impl Nt { fn len(&self) -> usize { 4 } }
+impl std::ops::Index<usize> for Nt { type Output = str; fn index(&self, i: usize) -> &str { UNIVERSES[UNIVERSE.load(std::sync::atomic::Ordering::Relaxed)][i] } }
+impl IntoIterator for Nt { type Item = &'static str; type IntoIter = std::array::IntoIter<&'static str, 4>; fn into_iter(self) -> Self::IntoIter { UNIVERSES[UNIVERSE.load(std::sync::atomic::Ordering::Relaxed)].into_iter() } }
+const NT: Nt = Nt;
 
 /// symbol codes: 0..4 plain non-terminals, 4..8 the same non-terminals decorated (clipped `S^`), 8 the terminal x
-const NSYM: usize = 2 * NT.len() + 1;
+const NSYM: usize = 2 * 4 + 1;
 fn sym(code: usize) -> Symbol {
-    if code < NT.len() { Symbol::n(NT[code]) }
+    if code < NT.len() { Symbol::n(&NT[code]) }
     else if code < 2 * NT.len() { Symbol::N(NT[code - NT.len()].to_string(), SymbolAttribute::Clipped, None, None) }
     else { Symbol::T(Terminal::t("x", vec![0], SymbolAttribute::None)) }
 }
@@ -30,8 +38,8 @@ fn all_rhs(max_len: usize) -> Vec<Vec<usize>> {
     out
 }
 fn build(st: usize, prods: &[(usize, Vec<usize>)]) -> Cfg {
-    let mut cfg = Cfg::with_start_symbol(NT[st]);
-    for (l, r) in prods { cfg = cfg.add_pr(Pr::new(NT[*l], r.iter().map(|c| sym(*c)).collect())); }
+    let mut cfg = Cfg::with_start_symbol(&NT[st]);
+    for (l, r) in prods { cfg = cfg.add_pr(Pr::new(&NT[*l], r.iter().map(|c| sym(*c)).collect())); }
     cfg
 }
 fn lhs(p: &Pr) -> String { p.get_n() }
@@ -46,7 +54,7 @@ fn nt_set(cfg: &Cfg) -> BTreeSet<String> {
 }
 fn describe(st: usize, prods: &[(usize, Vec<usize>)]) -> String {
     let p: Vec<String> = prods.iter().map(|(l, r)| format!("[{},[{}]]", l, r.iter().map(|c| c.to_string()).collect::<Vec<_>>().join(","))).collect();
-    format!("{{\"start\":[{}],\"productions\":[{}]}}", st, p.join(","))
+    format!("{{\"universe\":[{}],\"start\":[{}],\"productions\":[{}]}}", UNIVERSE.load(std::sync::atomic::Ordering::Relaxed), st, p.join(","))
 }
 /// returns the name of the first violated clause
 fn check(st: usize, prods: &[(usize, Vec<usize>)]) -> Option<&'static str> {
@@ -73,6 +81,7 @@ fn main() {
         let mut cases = 0u64;
         let mut k = 2;
         while k + 1 < a.len() {
+            if a[k].starts_with('U') { UNIVERSE.store(a[k][1..].parse().unwrap(), std::sync::atomic::Ordering::Relaxed); k += 1; continue; }
             let max_prods: usize = a[k].parse().unwrap();
             let max_rhs: usize = a[k + 1].parse().unwrap();
             k += 2;
@@ -103,6 +112,7 @@ fn main() {
     } else {
         // replay {"start":[s],"productions":[[l,[r..]],..]}
         let s = &a[2];
+        if let Some(u) = s.find("\"universe\"") { UNIVERSE.store(nums(&s[u..s.find("\"start\"").unwrap()])[0] as usize, std::sync::atomic::Ordering::Relaxed); }
         let st = nums(&s[s.find("\"start\"").unwrap()..s.find("\"productions\"").unwrap()])[0] as usize;
         let ps = &s[s.find("\"productions\"").unwrap() + 14..];
         let mut prods = vec![];
